@@ -82,6 +82,17 @@ TrScan ==
      /\ R.reader \in {"seek", "minimal_reser"} => R.materialized = Materialized(s) /\ R.stored = Stored(s)
   /\ UNCHANGED sh
 
+\* the streaming reader asked for one section only lists exactly that section
+TrScanPart ==
+  /\ IsEvent("ShScanPart") /\ R.sid \in DOMAIN sh
+  /\ LET s == sh[R.sid] IN
+     IF R.part = "xorbs"
+       THEN /\ NoDupHashes(R.xorbs) /\ {R.xorbs[i].h : i \in 1..Len(R.xorbs)} = DOMAIN s.xorbs
+            /\ \A i \in 1..Len(R.xorbs) : XorbEq(s.xorbs[R.xorbs[i].h], R.xorbs[i])
+       ELSE /\ NoDupHashes(R.files) /\ {R.files[i].h : i \in 1..Len(R.files)} = DOMAIN s.files
+            /\ \A i \in 1..Len(R.files) : RecEq(s.files[R.files[i].h], R.files[i], TRUE)
+  /\ UNCHANGED sh
+
 TrSizes ==
   /\ IsEvent("ShSizes") /\ R.sid \in DOMAIN sh
   /\ R.mem_size = R.file_size
@@ -253,7 +264,7 @@ TrExpiry == IsEvent("ShExpiry") /\ ExpiryOK = TRUE /\ UNCHANGED sh
 TrKeyedTimes == IsEvent("ShKeyedTimes") /\ R.creation = R.creation_set /\ R.expiry = R.creation + R.valid /\ UNCHANGED sh
 
 TraceNext == \/ TrReset \/ TrBuild \/ TrLookup \/ TrScan \/ TrSizes \/ TrSearch \/ TrDedup \/ TrSetOp \/ TrConsolidate
-             \/ TrExport \/ TrDedupPair \/ TrKeyedFile \/ TrExpiry \/ TrKeyedTimes \/ TrMgrLookup \/ TrMgrEnd \/ TrExportLookup \/ TrDedupMust
+             \/ TrExport \/ TrDedupPair \/ TrKeyedFile \/ TrExpiry \/ TrKeyedTimes \/ TrMgrLookup \/ TrMgrEnd \/ TrExportLookup \/ TrDedupMust \/ TrScanPart
 TraceSpec == TraceInit /\ [][TraceNext]_vars
 
 TraceAccepted ==
